@@ -150,7 +150,9 @@ def gen_target(rng: random.Random, case: Dict[str, Any]) -> Tuple[bytes, bool, D
         pathk = case.get('path', 'plain')
         path = {'none': b'', 'root': b'/', 'plain': b'/a/' + G.token(rng), 'query': b'/p?q=' + G.token(rng) + b'&r=1',
                 'colon-at': b'/x:y@z/a:80?u=b@c:1', 'url-in-query': b'/r?next=http://evil.test:81/x',
-                'query-only': b'?only=query', 'encoded': b'/%2e%2e/%41?%3a=%40', 'double-slash': b'//dd//e',
+                'query-only': b'?only=query', 'query-slash': b'?next=/home/' + G.token(rng), 'query-at': b'?u=x@127.0.0.9:81/p',
+                'query-url': b'?cb=http://other.test:82/x', 'frag-slash': b'#/route/' + G.token(rng), 'frag-at': b'#x@127.0.0.9:83/',
+                'encoded': b'/%2e%2e/%41?%3a=%40', 'double-slash': b'//dd//e',
                 'reserved': b"/a;b=c/!$&'()*+,=~?x=[1]"}[pathk]
         target = b'http://' + ui + host + port + path
     dmg = case.get('damage')
@@ -420,7 +422,8 @@ def _is_ip(s: Any) -> bool:
 
 HOSTS = ['ldh', 'sub', 'upper', 'utf8', 'punycode', 'long', 'ipv4', 'ipv6', 'ipv6-other']
 PORTS = ['absent', 'empty', '0', '1', '80', '443', '65535', 'leading0', 'rand']
-PATHS = ['none', 'root', 'plain', 'query', 'colon-at', 'url-in-query', 'query-only', 'encoded', 'double-slash', 'reserved']
+PATHS = ['none', 'root', 'plain', 'query', 'colon-at', 'url-in-query', 'query-only', 'query-slash', 'query-at', 'query-url',
+         'frag-slash', 'frag-at', 'encoded', 'double-slash', 'reserved']
 DAMAGE = ['no-close-bracket', 'no-open-bracket', 'alpha-port', 'two-at', 'huge-port', 'neg-port', 'empty-host']
 
 
